@@ -28,7 +28,7 @@ ASSUMPTIONS = ["ideal hash: SHA-256 collision-free and GF(2)-independent on the 
 OUTSIDE = ["*args / **kwargs / keyword-only parameters", "functions with more than 3 parameters", "argument values other than 32-bit ints, bools, None, short ASCII strings"]
 FUNCTIONS_ENCODED = ["dds.fun_args.get_arg_ctx", "dds.fun_args.get_arg_ctx_ast", "dds.fun_args.dds_hash", "dds.introspect._build_return_sig", "dds.introspect.InspectFunction.inspect_call", "dds._api._eval_new_ctx"]
 BOUNDS = {"quick": {"functions": ["h1(x)", "g2(a, b)", "g3(x, y=5, z='k')", "gf(x, y=0, z=None)"], "values": "symbolic 32-bit ints / bool / None / ASCII str <= 1 / finite floats (against the float literal)", "literals in source": [s for s, _v in LITERALS]}}
-BOUNDS["thorough"] = BOUNDS["quick"]
+BOUNDS["thorough"] = dict(BOUNDS["quick"], values=BOUNDS["quick"]["values"].replace("ASCII str <= 1", "ASCII str <= 2"))
 LAST_DETAIL = [""]
 M = "tq.m1"
 
@@ -184,7 +184,7 @@ def make_fn(fn, sel, tag):
             pres.append("%s_f == %s_f and -1e9 < %s_f < 1e9" % (name, name, name))
         elif kind == "str":
             params.append((name + "_s", "str"))
-            pres.append("len(%s_s) <= 1 and %s_s.isascii()" % (name, name))
+            pres.append("len(%s_s) <= %d and %s_s.isascii()" % (name, sel.get("slen", 1), name))
 
     if fn == "spell":
         add("x", "int")
@@ -229,6 +229,18 @@ def queries(tier):
         if kind in ("int", "bool"):
             other = "bool" if kind == "int" else "int"
             qs.append({"id": "src.lit%d.%s" % (k, other), "fn": "src", "sel": {"group": "literal", "lit": k, "vkind": other}, "timeout": 300})
+    return qs
+
+
+_queries_quick = queries
+
+
+def queries(tier):
+    qs = _queries_quick(tier)
+    if tier == "thorough":
+        for q in qs:
+            q["sel"]["slen"] = 2
+            q["timeout"] = q["timeout"] * 3
     return qs
 
 
